@@ -9,7 +9,7 @@
 4. searcher (library only, always run): forward/backward round trips for JANUS (bit-exact) and for
    LEAPFROG / WHFast (4 coordinate systems) / uncorrected SABA / unprocessed EOS / SEI (rounding-level).
 """
-import os, sys, math, ctypes
+import math, os, sys, ctypes
 import vlib
 
 ORDERS = {2: "s1odr2", 4: "s5odr4", 6: "s9odr6a", 8: "s15odr8", 10: "s33odr10c"}
@@ -40,6 +40,64 @@ def pint_list(sim):
 def state(sim):
     return [c for p in sim.particles for c in (p.x, p.y, p.z, p.vx, p.vy, p.vz)]
 
+
+
+def sei_correspondence_cases(ctx, rebound, rng):
+    """Histories of SEI steps on ONE simulation with dt changing sign/size; gravity none + a position dependent
+    additional force whose (positions -> accelerations) table is recorded; sin/tan from libm via math."""
+    import ctypes
+    cases = []
+    for k in range(ctx.scale(36, 360)):
+        n = rng.choice([1, 2, 3])
+        OM = rng.choice([1.0, 0.7, 2.5, 1e-3])
+        OMZ = rng.choice([None, None, 1.3 * OM, 3.6])
+        sim = rebound.Simulation()
+        sim.integrator = "sei"; sim.gravity = "none"
+        sim.ri_sei.OMEGA = OM
+        if OMZ is not None: sim.ri_sei.OMEGAZ = OMZ
+        for i in range(n):
+            sim.add(m=0.0, x=rng.uniform(-1, 1), y=rng.uniform(-1, 1), z=rng.uniform(-0.1, 0.1),
+                    vx=rng.uniform(-0.1, 0.1), vy=rng.uniform(-1, 1), vz=rng.uniform(-0.05, 0.05))
+        kx, ky, kz = rng.uniform(0, 0.5), rng.uniform(0, 0.5), rng.uniform(0, 2)
+        ftab = []
+        def force(simp, ftab=ftab, kx=kx, ky=ky, kz=kz, n=n):
+            ps = simp.contents.particles
+            pos = []; acc = []
+            for i in range(n):
+                p = ps[i]
+                a = (-kx * p.x + 0.1 * p.y * p.z, -ky * p.y, -kz * p.z + 0.05 * p.x * p.x)
+                p.ax, p.ay, p.az = a
+                pos.append([p.x, p.y, p.z]); acc.append(list(a))
+            ftab.append((pos, acc))
+        sim.additional_forces = force
+        dt = rng.choice([1, -1]) * rng.choice([1e-2, 0.1, 0.3, 1.0]) * rng.uniform(0.5, 1.5)
+        mode = k % 4
+        if mode == 0: dts = [dt] * 3 + [-dt] * 3                      # forward then back
+        elif mode == 1: dts = [dt, -dt, dt, dt, -dt]                  # repeated flips
+        elif mode == 2: dts = [dt, dt * 2, -dt * 2, -dt, dt]          # size and sign
+        else: dts = [dt, dt, -dt, -dt, 0.5 * dt, -0.5 * dt]
+        ps0 = [[p.x, p.y, p.z, p.vx, p.vy, p.vz] for p in sim.particles]
+        for d in dts:
+            sim.dt = d; sim.step()
+        omz = OM if OMZ is None else OMZ
+        ttab = []
+        for d in sorted(set(dts)):
+            ttab.append((d, (math.sin(OM * (-d / 2.)), math.tan(OM * (-d / 4.)), math.sin(omz * (-d / 2.)), math.tan(omz * (-d / 4.)))))
+        ri = sim.ri_sei
+        got = [ri._lastdt, ri._sindt, ri._tandt, ri._sindtz, ri._tandtz] + [v for p in sim.particles for v in (p.x, p.y, p.z, p.vx, p.vy, p.vz)]
+        tt = "[" + "; ".join("(%s, (%s, %s, %s, %s))" % ((vlib.fhex(d),) + tuple(vlib.fhex(v) for v in vs)) for d, vs in ttab) + "]"
+        def l3(rows): return "[" + "; ".join("(%s, %s, %s)" % tuple(vlib.fhex(v) for v in r) for r in rows) + "]"
+        ft = "[" + "; ".join("(%s, %s)" % (l3(pos), l3(acc)) for pos, acc in ftab) + "]"
+        term = "(sei_run %s %s %s %s %s %s)" % (vlib.fhex(OM), vlib.fhex(omz), tt, ft,
+                                               "[" + "; ".join(vlib.flist(p) for p in ps0) + "]", vlib.flist(dts))
+        cases.append((term, got, {"N": n, "OMEGA": OM, "OMEGAZ": OMZ, "dts": dts}))
+        ctx.case(key=("sei-corr", n, mode, OMZ is None))
+        # the oracle is odd, as the theorem assumes (checked on the values actually used)
+        for d in dts:
+            a = (math.sin(OM * (-d / 2.)), math.tan(OM * (-d / 4.))); b = (math.sin(OM * (d / 2.)), math.tan(OM * (d / 4.)))
+            if a[0] != -b[0] or a[1] != -b[1]:
+                ctx.obligation("libm sin/tan odd at the arguments used by SEI", False, "dt=%r OMEGA=%r" % (d, OM))
+    return cases
 
 def run(ctx):
     libdir = ctx.lib()
@@ -99,6 +157,27 @@ def run(ctx):
     ctx.traces = len(cases) if corr_ok else 0
     ctx.obligation("correspondence:C10 JANUS model == library p_int (int64 for int64) on %d runs" % len(cases),
                    corr_ok and not bad_total, "mismatching: %s" % [cases[b][2] for b in bad_total[:5]])
+
+    # ---------------- correspondence: SEI model (incl. the sin/tan cache carried across changes of dt) vs library
+    sei_cases = sei_correspondence_cases(ctx, rebound, rng)
+    jobs = []; chunk = 12
+    for c0 in range(0, len(sei_cases), chunk):
+        body = ("From Coq Require Import List PrimFloat.\nFrom RV Require Import Common.FloatNum C10.Sei C10.SeiRun.\n"
+                "Import ListNotations.\nOpen Scope float_scope.\nDefinition cases : list (list float * list float) := [\n" +
+                ";\n".join("(%s, %s)" % (t, vlib.flist(g)) for t, g, _ in sei_cases[c0:c0 + chunk]) +
+                "].\nEval vm_compute in (bad_cases cases).\n")
+        jobs.append(("c10sei_%d" % (c0 // chunk), body))
+    sei_bad = []; sei_ok = True
+    for (name, ok, out), c0 in zip(vlib.coq_eval_many(jobs, timeout=600), range(0, len(sei_cases), chunk)):
+        bad = vlib.parse_coq_list_nat(out) if ok else None
+        if bad is None:
+            sei_ok = False; ctx.obligation("correspondence:C10:" + name, False, out[-1500:])
+        else:
+            sei_bad += [c0 + b for b in bad]
+    if sei_ok: ctx.traces += len(sei_cases)
+    ctx.obligation("correspondence:C10 SEI model(binary64, libm sin/tan as oracle) == library particles and cache, bit for bit, on %d "
+                   "histories with changes of sign and size of dt" % len(sei_cases),
+                   sei_ok and not sei_bad, "mismatching: %s" % [sei_cases[b][2] for b in sei_bad[:4]])
 
     # ---------------- searcher: library-only round trips
     fails = []
